@@ -38,6 +38,9 @@ fn remove_invalid_object_references(module: &mut Module) {
 
 fn build_refname_set(module: &Module) -> HashSet<String> {
     let mut refnames = HashSet::new();
+    for name in module.axis_pts.keys() {
+        refnames.insert(name.clone());
+    }
     for name in module.characteristic.keys() {
         refnames.insert(name.clone());
     }
